@@ -134,21 +134,22 @@ def internIn {α : Type} [DecidableEq α] (x : α) (l : List α) : List α × In
 /-- models styles.rs::get_or_create_component_ids: (pool', num_fmt_id, font_id, fill_id, border_id) -/
 def getOrCreateComponentIds (T : List String) (shadowFix : Bool) (p : Pool F L B A) (s : Style F L B A) :
     Pool F L B A × Int × Int × Int × Int :=
-  let (fonts, fontId) := internIn s.font p.fonts
-  let (fills, fillId) := internIn s.fill p.fills
-  let (borders, borderId) := internIn s.border p.borders
+  let fo := internIn s.font p.fonts
+  let fi := internIn s.fill p.fills
+  let bo := internIn s.border p.borders
   match getNumFmtIndex T shadowFix p.numFmts s.numFmt with
-  | some i => ({ p with fonts, fills, borders }, i, fontId, fillId, borderId)
+  | some i => ({ p with fonts := fo.1, fills := fi.1, borders := bo.1 }, i, fo.2, fi.2, bo.2)
   | none =>
     let i := getNewNumFmtIndex T p.numFmts
-    ({ p with fonts, fills, borders, numFmts := p.numFmts ++ [⟨i, s.numFmt⟩] }, i, fontId, fillId, borderId)
+    ({ p with fonts := fo.1, fills := fi.1, borders := bo.1, numFmts := p.numFmts ++ [⟨i, s.numFmt⟩] },
+     i, fo.2, fi.2, bo.2)
 
 /-- models styles.rs::create_new_style -/
 def createNewStyle (T : List String) (shadowFix : Bool) (p : Pool F L B A) (s : Style F L B A) :
     Pool F L B A × Int :=
-  let (p1, numFmtId, fontId, fillId, borderId) := getOrCreateComponentIds T shadowFix p s
-  ({ p1 with cellXfs := p1.cellXfs ++ [⟨0, numFmtId, fontId, fillId, borderId, s.quotePrefix, s.alignment⟩] },
-   p1.cellXfs.length)
+  let r := getOrCreateComponentIds T shadowFix p s
+  ({ r.1 with cellXfs := r.1.cellXfs ++ [⟨0, r.2.1, r.2.2.1, r.2.2.2.1, r.2.2.2.2, s.quotePrefix, s.alignment⟩] },
+   r.1.cellXfs.length)
 
 /-- the `Style { … }` expression shared by get_style and get_style_index: decode one xf -/
 def decodeXf (T : List String) (p : Pool F L B A) (xf : CellXf A) : Except Fault (Style F L B A) :=
@@ -184,6 +185,21 @@ def intern (T : List String) (shadowFix : Bool) (p : Pool F L B A) (s : Style F 
   | .error e => .error e
   | .ok (some i) => .ok (p, i)
   | .ok none => .ok (createNewStyle T shadowFix p s)
+
+/-- the pools the theorems are about.  `comp`: component indices in range; `fmt`: every xf's
+    number-format id is defined by the workbook or is a built-in id (no dangling custom id that a
+    later new format could take over; no negative id); `consistent`: two workbook definitions of
+    one id agree; `noShadow` (pinned get_num_fmt_index only): a workbook definition of a built-in
+    id repeats the built-in code -/
+structure PoolInv (T : List String) (shadowFix : Bool) (p : Pool F L B A) : Prop where
+  comp : ∀ xf ∈ p.cellXfs,
+    (idx p.fonts xf.fontId).isSome ∧ (idx p.fills xf.fillId).isSome ∧ (idx p.borders xf.borderId).isSome
+  fmt : ∀ xf ∈ p.cellXfs,
+    (findNumFmt xf.numFmtId p.numFmts).isSome ∨ (0 ≤ xf.numFmtId ∧ xf.numFmtId < (T.length : Int))
+  consistent : ∀ nf ∈ p.numFmts,
+    (findNumFmt nf.numFmtId p.numFmts).map (·.formatCode) = some nf.formatCode
+  noShadow : shadowFix = false → ∀ nf ∈ p.numFmts, nf.numFmtId < (T.length : Int) →
+    idx T nf.numFmtId = some nf.formatCode
 
 end
 
